@@ -339,8 +339,9 @@ class Report:
         ok, msg = regen()
         if not ok:
             # only the translators whose output this property's theorems depend on matter here
-            mine = {t for t in failed_translators(msg) if GEN_OF.get(t) in gen_deps(self.pid)} or (failed_translators(msg) and set()) or {"?"}
-            if failed_translators(msg) and not mine:
+            ft = failed_translators(msg)
+            mine = {t for t in ft if GEN_OF.get(t) in gen_deps(self.pid)} if ft else {"?"}
+            if ft and not mine:
                 self.notes.append("a translator this property does not depend on failed: " + msg[-300:])
                 ok = True
             else:
